@@ -146,6 +146,7 @@ type bktTx struct {
 }
 
 type bktScenario struct {
+	Root     bool    `json:"root,omitempty"` // the modelled top bucket is the transaction's root bucket itself
 	PageSize int     `json:"page_size"`
 	Txs      []bktTx `json:"txs"`
 }
@@ -177,15 +178,23 @@ func runBktScenario(rep *Report, sc bktScenario, tag string) {
 		}
 	}
 	ps := db.Info().PageSize
-	if err := db.Update(func(tx *bolt.Tx) error { _, err := tx.CreateBucket([]byte("b")); return err }); err != nil {
-		return
+	topOf := func(tx *bolt.Tx) *bolt.Bucket {
+		if sc.Root {
+			return tx.Cursor().Bucket()
+		}
+		return tx.Bucket([]byte("b"))
+	}
+	if !sc.Root {
+		if err := db.Update(func(tx *bolt.Tx) error { _, err := tx.CreateBucket([]byte("b")); return err }); err != nil {
+			return
+		}
 	}
 	var lines, want []string
 	add := func(l, w string) { lines = append(lines, l); want = append(want, w) }
 	fail := func(sig, what string) { rep.violation(*flagProp, "monitor", sig, what, sc) }
 	for ti, t := range sc.Txs {
 		var before string
-		_ = db.View(func(tx *bolt.Tx) error { before = tx.Bucket([]byte("b")).VerifBucketTree(true); return nil })
+		_ = db.View(func(tx *bolt.Tx) error { before = topOf(tx).VerifBucketTree(true); return nil })
 		bb, _ := parseBK(strings.Fields(before))
 		if bb == nil {
 			fail("bkt-unparsable", truncate(before, 200))
@@ -208,7 +217,7 @@ func runBktScenario(rep *Report, sc bktScenario, tag string) {
 			return
 		}
 		freedLog = freedLog[:0]
-		top := tx.Bucket([]byte("b"))
+		top := topOf(tx)
 		top.FillPercent = t.Fill
 		for _, o := range t.Ops {
 			f := strings.Fields(o)
@@ -288,9 +297,13 @@ func runBktScenario(rep *Report, sc bktScenario, tag string) {
 		if len(os_) == 0 {
 			os_ = []string{"-"}
 		}
-		add("commit "+strings.Join(os_, ","), "ok a=true")
+		if sc.Root {
+			add("commitroot "+strings.Join(os_, ","), "ok a=true")
+		} else {
+			add("commit "+strings.Join(os_, ","), "ok a=true")
+		}
 		var after string
-		_ = db.View(func(tx *bolt.Tx) error { after = tx.Bucket([]byte("b")).VerifBucketTree(true); return nil })
+		_ = db.View(func(tx *bolt.Tx) error { after = topOf(tx).VerifBucketTree(true); return nil })
 		// page accounting over the whole bucket tree (nested and deleted buckets included): the pages
 		// of the old state that the new state no longer references are exactly the pages freed, each once
 		{
@@ -410,8 +423,8 @@ type bkShadow struct {
 	keys map[int]bool
 }
 
-func bktGenScenario(rng *rand.Rand, ntx int) bktScenario {
-	sc := bktScenario{PageSize: []int{1024, 1024, 4096, 16384}[rng.Intn(4)]}
+func bktGenScenario(rng *rand.Rand, ntx int, forceRoot bool) bktScenario {
+	sc := bktScenario{PageSize: []int{1024, 1024, 4096, 16384}[rng.Intn(4)], Root: rng.Intn(3) == 0 || forceRoot}
 	ps := sc.PageSize
 	root := &bkShadow{kids: map[string]*bkShadow{}, keys: map[int]bool{}}
 	key := func(i int) string { return hx(fmt.Sprintf("k%04d", i)) }
@@ -454,7 +467,22 @@ func bktGenScenario(rng *rand.Rand, ntx int) bktScenario {
 		nops := 1 + rng.Intn(12)
 		for i := 0; i < nops; i++ {
 			p, s := pick()
-			switch r := rng.Intn(20); {
+			r := rng.Intn(20)
+			if sc.Root && p == "." {
+				// the root bucket holds buckets only (Tx has no Put/Delete/SetSequence): many top-level buckets
+				name := hx(fmt.Sprintf("t%02d", rng.Intn(40)))
+				if rng.Intn(4) == 0 {
+					tx.Ops = append(tx.Ops, p+" rm "+name)
+					delete(s.kids, name)
+				} else {
+					tx.Ops = append(tx.Ops, p+" mk "+name)
+					if _, ok := s.kids[name]; !ok {
+						s.kids[name] = &bkShadow{kids: map[string]*bkShadow{}, keys: map[int]bool{}}
+					}
+				}
+				continue
+			}
+			switch {
 			case r < 3: // create a sub-bucket
 				name := hx(fmt.Sprintf("b%d", rng.Intn(6)))
 				tx.Ops = append(tx.Ops, p+" mk "+name)
@@ -533,7 +561,10 @@ func bktEngine() {
 		nsc, ntx = 300, 40
 	}
 	for i := 0; i < nsc; i++ {
-		sc := bktGenScenario(rng, ntx)
+		sc := bktGenScenario(rng, ntx, i == 1) // at least one scenario on the transaction's root bucket in every run
+		if sc.Root {
+			rep.count("root-bucket-scenario")
+		}
 		runBktScenario(rep, sc, fmt.Sprint(i))
 		rep.Programs++
 		if len(rep.Violations) > 5 {
